@@ -17,7 +17,7 @@
 From Coq Require Import List Arith Bool NArith Ring.
 From Verif.lib Require Import FinSet.
 From Verif.C04 Require Import Model Proofs ProofsFun ProofsMesh.
-From Verif.C03 Require Import Model Proofs Proofs2 Proofs3 Proofs4 Proofs5 Proofs6 Proofs7 Proofs8.
+From Verif.C03 Require Import Model Proofs Proofs2 Proofs3 Proofs4 Proofs5 Proofs6 Proofs7 Proofs8 Proofs9 Proofs10 Proofs11.
 Import ListNotations.
 
 (* neighbours are complete: for every space st (no reachability needed), every level pair i < k (REPAIRED code:
@@ -170,13 +170,20 @@ Theorem hassemble_entry_partial : forall (R : Type) (r0 r1 : R) radd rmul rsub r
   = spec_entry R r0 radd rmul a (repc R r0 r1 radd rmul st pmat) (fun k => tp_functions (msh st k)) li fi lj fj.
 Proof. exact hassemble_entry_concrete. Qed.
 Print Assumptions hassemble_entry_partial.
-(* NOT PROVED: hassemble_entry = the same for st := run (hs_init axes disp) ops (valid history) and pmat := the exact
-   Boehm prolongators, WITHOUT the hypotheses P_local / mesh_ok / dims / AF in F / il in F.  Missing: P_local and the shape
-   fact for the C05 knot-insertion matrices (C05 works over knot functions nat -> Qc, no link to C04's integer tables yet);
-   mesh_ok etc. follow from C04's hier_ok once that is discharged there.  Also NOT PROVED: that the sparse-matrix program
-   assemble_hb (fancy indexing, sparse products, represent_fine) evaluates blk_entry; the COO stage of it is proved
-   (coo_merge_sums_duplicates, insert_block_entries, fancy_index_rows, fancy_index_columns, sm_mul_entry, sm_transpose_entry below: the kernels; kron2_entry further below; the represent_fine loop rf_loop/hstack and the chaining of the kernels through level_blocks with the canonical-index arithmetic -- hassemble_program_entry -- are not), the rest is compared exactly on sampled entries of every history
-   of the correspondence run and on all entries of Examples.ex_sparse_program_is_entry_form (tests). *)
+(* NOT PROVED: hassemble_entry = the same for st := run (hs_init axes disp) ops (valid history) and pmat := the exact Boehm
+   prolongators WITHOUT data hypotheses.  State (theorems further below): mesh_ok / dims / AF in F are discharged from C04
+   (hassemble_entry_reachable_partial); P_local and the shape fact are discharged from C04's children_inside_parent_support
+   under pattern_ok (hassemble_entry_pattern_partial, interlevel_in_index_box).  Missing: pattern_ok for the C05 knot-insertion
+   matrices (C05 works over knot functions nat -> Qc, no link to C04's integer pattern is_child_1d).
+   Also NOT PROVED: hassemble_program_entry -- that the sparse-matrix program assemble_hb evaluates blk_entry.  Proved kernels:
+   coo_merge_sums_duplicates, insert_block_entries, fancy_index_rows, fancy_index_columns, sm_mul_entry, sm_transpose_entry,
+   kron2_entry, multi_kron_entry (kronP has the entries kron_entry), hstack_entry, and the algebraic fact behind the order of the
+   products in the loop of represent_fine (representation_associative).  Missing: (a) the loop rf_loop itself -- it needs "the sum
+   over the stored entries of a sorted sparse row = the sum over all multi-indices of the level of the entry" (ravel is a bijection
+   of the index box onto range(N_k)) and sortedness of the Kronecker rows; (b) the chaining through level_blocks with the
+   canonical-index arithmetic (disjointness of the blocks, offsets of new / neighbors).  The program is compared exactly with
+   blk_entry on sampled entries of every history of the correspondence run and on all entries of
+   Examples.ex_sparse_program_is_entry_form (tests). *)
 
 (* Load vector (assemble_functional, HB): entry number offset_k + p is the entry of the level-k tensor-product load vector
    at the raveled index of the p-th active function of level k -- every hierarchical basis function is integrated with the
@@ -321,3 +328,43 @@ Theorem kron2_entry : forall (R : Type) (r0 r1 : R) radd rmul rsub ropp,
   = rmul (sm_get R r0 A (N.of_nat i1) j1) (sm_get R r0 B (N.of_nat i2) j2).
 Proof. exact kron2_entry_l. Qed.
 Print Assumptions kron2_entry.
+
+(* multi_kron_entry: the matrix kronP of represent_fine (utils.multi_kron_sparse of the 1-D prolongators of one level, any
+   number of axes) has at (ravel r', ravel r) the product kron_entry of the 1-D entries -- the quantity the representation repc
+   of hassemble_entry_*_partial is built from.  rowdims = the row counts of the 1-D matrices, cols_ok = their stored columns
+   lie below the coarse dimensions; r, r' any multi-indices inside the two index boxes. *)
+Theorem multi_kron_entry : forall (R : Type) (r0 r1 : R) radd rmul rsub ropp,
+  ring_theory r0 r1 radd rmul rsub ropp eq ->
+  forall (pmat : nat -> nat -> smat R) lv dims d r r',
+  cols_ok R pmat lv d dims ->
+  Forall2 (fun n x => x < n) dims r ->
+  Forall2 (fun n x => x < n) (rowdims R pmat lv d (length dims)) r' ->
+  sm_get R r0 (multi_kron R r1 rmul pmat lv d dims) (ravel (rowdims R pmat lv d (length dims)) r') (ravel dims r)
+  = kron_entry R r0 r1 rmul pmat lv d r' r.
+Proof. exact multi_kron_entry_l. Qed.
+Print Assumptions multi_kron_entry.
+
+(* hstack_entry: scipy.sparse.bmat([blocks]) as used by represent_fine -- column (offset of block nb) + c of the stacked
+   matrix is column c of block nb, in every row below the row count, provided the stored columns of every block lie below the
+   width declared for it. *)
+Theorem hstack_entry : forall (R : Type) (r0 : R) nrows (blocks : list (smat R * nat)) i nb c,
+  i < nrows -> nb < length blocks -> (c < N.of_nat (snd (nth nb blocks ([], 0%nat))))%N ->
+  (forall b k, In b blocks -> In k (keys R (nth i (fst b) [])) -> (k < N.of_nat (snd b))%N) ->
+  sm_get R r0 (hstack R nrows blocks) (N.of_nat i) (offs R blocks nb + c)%N
+  = sm_get R r0 (fst (nth nb blocks ([], 0%nat))) (N.of_nat i) c.
+Proof. exact hstack_entry_l. Qed.
+Print Assumptions hstack_entry.
+
+(* representation_associative: the coefficients repn (S n) l f r of the level-(l+n+1) function r in the level-l function f
+   (defined by prolongating at the fine end, as hassemble_entry_*_partial uses them) equal the sum over the level-(l+1)
+   functions g of  repn n (l+1) g r * K_l[g, f]  -- the coarsest Kronecker prolongator split off, which is the order in which the
+   loop of represent_fine multiplies (P := P.dot(Pj), j decreasing).  Any prolongator data, any space, any number of levels. *)
+Theorem representation_associative : forall (R : Type) (r0 r1 : R) radd rmul rsub ropp,
+  ring_theory r0 r1 radd rmul rsub ropp eq ->
+  forall (st : hspace) (pmat : nat -> nat -> smat R) n l f r,
+  In f (tp_functions (msh st l)) -> In r (tp_functions (msh st (l + S n))) ->
+  repn R r0 r1 radd rmul st pmat (S n) l f r
+  = sumf R r0 radd (fun g => rmul (repn R r0 r1 radd rmul st pmat n (S l) g r) (kron_entry R r0 r1 rmul pmat l 0 g f))
+         (tp_functions (msh st (S l))).
+Proof. exact repn_bottom_l. Qed.
+Print Assumptions representation_associative.
